@@ -12,7 +12,7 @@ REQUIRED = ["depth 1 == max tent (complete PL comparison)", "every depth == k-th
             "hom_deg selects the diagram", "one trailing infinite bar ignored"]
 RULE = ("diagrams of 1-12 bars of positive length on small integer / half-integer grids (all coincidences exact in binary): "
         "nested, overlapping, disjoint, touching (d_i=b_j), equal births, equal deaths, repeated bars x2..x4, sweep collisions, "
-        "random input order; plus random float bars; scales 1e-3..1e3; the same configurations far from the origin (offset 1e5-1e7 bar lengths) and at absolute scale 1e-9, and shifted so that coordinates are negative or exactly 0; hom_deg 0..2 with decoy diagrams. Both sides are "
+        "random input order; plus random float bars; scales 1e-3..1e3; the same configurations far from the origin (offset 1e5-1e7 bar lengths) and at absolute scale 1e-9, and shifted so that coordinates are negative or exactly 0; hom_deg 0..2 with decoy diagrams; one case in 1009 has 500-700 bars (float, or a wide integer grid), compared on all of the implementation's breakpoints plus a 60000-point sample of the definition's. Both sides are "
         "piecewise linear, so they are compared on the union of their breakpoints (+ midpoints + outside points): a complete "
         "equality test per input and per depth. non-trivial = >=3 bars with at least one overlapping pair; distinct = digest "
         "of the sorted bars")
@@ -21,6 +21,7 @@ ASSUMPTIONS = ["tolerance 1e-9*(longest bar) + 8 eps*(largest coordinate)", "the
                "first wrong depth AND an independent shortcut-free sweep (itself validated against the definition on the same "
                "input) has a genuinely repeated bar at the head of its residual list at that depth; depth 1 and the ordering "
                "clauses are always enforced"]
+REQUIRED_NOTES = ["large-cases"]
 TECHNIQUE = "runtime monitoring: postcondition monitor on PersLandscapeExact.critical_pairs (complete piecewise-linear comparison with the definition) + guarded trace hook for attribution"
 
 EVENTS = []
@@ -167,9 +168,27 @@ def far_or_tiny(rng, bars, style):
     return bars, style
 
 
+def gen_large(rng):
+    """500-700 bars (a few hundred points of a point cloud give as many): generic floats, or a wide integer grid where exact
+    coincidences between births / deaths / sweep residuals still occur"""
+    n = int(rng.integers(500, 701))
+    if rng.random() < 0.6:
+        b = rng.random(n) * 10; d = b + rng.random(n) * rng.choice([0.5, 3.0, 8.0]) + 1e-3
+        style = "large-float"
+    else:
+        b = rng.integers(0, 4000, n).astype(float); d = b + rng.integers(1, 1500, n)
+        style = "large-grid"
+    bars = np.column_stack([b, d]) * float(rng.choice([1e-3, 1, 1, 1e3]))
+    return bars[rng.permutation(n)], style
+
+
 def run_case(ctx, k, rng):
-    bars, style = gen_bars(rng)
-    bars, style = far_or_tiny(rng, bars, style)
+    if k % 1009 == 11:
+        bars, style = gen_large(rng)
+        ctx.note("large-cases")
+    else:
+        bars, style = gen_bars(rng)
+        bars, style = far_or_tiny(rng, bars, style)
     hom = int(rng.choice([0, 0, 1, 2]))
     dgms = [np.array([[0.0, 1.0], [0.5, 7.0]]) * (j + 1) for j in range(hom)] + [bars]
     if rng.random() < 0.3:
